@@ -41,8 +41,7 @@ def pairwise_configs(rng, n):
 def run(res, a):
     if a.replay:
         return apitrace.replay(res, "C13", a.replay)
-    if os.path.exists(os.path.join(vlib.COQ, "Properties", "C13.v")):
-        vlib.proof_stage(res, "C13")
+    vlib.proof_stage(res, "C13", files=["C13mask"])
     idx = option_index()
     big = a.tier == "thorough"
     rng = random.Random(a.seed)
